@@ -24,10 +24,11 @@ theorem C17_features : Generated.features = [("sync", []), ("specialized", [])] 
 
 /-- every feature-dependent item lives in lib.rs (none in lexer, parser, interpreter, functions, variable, runtime, errors) -/
 theorem C17_all_sites_in_lib : ∀ s ∈ Generated.cfgSites, s.1 = "lib.rs" := by
+  -- stated through `List.all` so that the number and order of the sites do not matter to the proof
+  have h : Generated.cfgSites.all (fun s => s.1 == "lib.rs") = true := by decide
   intro s hs
-  simp only [Generated.cfgSites, List.mem_cons, List.mem_nil_iff, or_false] at hs
-  rcases hs with h | h | h | h | h | h | h | h | h | h | h | h | h | h | h | h | h | h | h | h | h | h | h | h | h | h | h | h | h <;>
-    (subst h; rfl)
+  have := List.all_eq_true.mp h s hs
+  simpa using this
 
 /-- the `sync` feature guards exactly the two definitions of the `Rcvar` alias -/
 theorem C17_sync_sites :
